@@ -43,6 +43,7 @@ struct websocket_peer {
 };
 
 int alloc_websocket_peer(struct http_connection *connection);
+void destroy_websocket_peer(struct http_connection *connection);
 
 #ifdef __cplusplus
 }
